@@ -26,8 +26,9 @@ structure Env where
   rewardId : Nat → Hash
   /-- `Header::hash` -/
   hdrHash : Header → Hash
-  /-- MelPoW verification for the puzzle seeded by (header hash, coin id), at a difficulty, of the proof in `data` -/
-  powOk : (seedHeaderHash : Hash) → (coin : CoinID) → (difficulty : Nat) → (data : Bytes) → PowVerdict
+  /-- MelPoW verification for the puzzle seeded by (header hash, coin id), at a difficulty, of the proof
+      carried in the data of the transaction with the given hash -/
+  powOk : (seedHeaderHash : Hash) → (coin : CoinID) → (difficulty : Nat) → (txHash : Hash) → PowVerdict
   /-- `hash_nosigs().to_string() == INFLATION_BUG_TX_HASH` (hex of the hash equals the constant) -/
   isGrandfathered : Hash → Bool
   /-- Merkle roots as functions of content -/
